@@ -114,7 +114,9 @@ func TestC01(t *testing.T) {
 		if nontrivialValue(a) {
 			r.NonTrivial(av.Hash(shape + av.Canon(a, av.Options{})))
 		}
-		r.Sample(func() interface{} { return map[string]interface{}{"shape": shape, "value": desc, "bytes": hexClip(b, 80)} })
+		r.Sample(func() interface{} {
+			return map[string]interface{}{"shape": shape, "value": desc, "bytes": hexClip(b, 80)}
+		})
 		if err != nil {
 			c.set("bytes", hexClip(b, 400))
 			c.set("stage", stage)
